@@ -273,6 +273,7 @@ struct Sup {
     stop_on_start: bool,
     /// keep the `Mailbox` of every child heard of in the actor state (a supervisor holding references)
     keep: bool,
+    respawn: Option<Arc<RespawnStats>>,
 }
 
 impl Actor for Sup {
@@ -286,7 +287,7 @@ impl Actor for Sup {
 }
 
 impl Handler<SupervisionEvent<TestActor>> for Sup {
-    async fn handle(&self, _m: &Mailbox<Self>, ev: SupervisionEvent<TestActor>, st: &mut Self::State) -> Result<(), u32> {
+    async fn handle(&self, myself: &Mailbox<Self>, ev: SupervisionEvent<TestActor>, st: &mut Self::State) -> Result<(), u32> {
         let k = match &ev {
             SupervisionEvent::ActorStarted(_) => 0,
             SupervisionEvent::ActorTerminated(_) => 1,
@@ -301,6 +302,30 @@ impl Handler<SupervisionEvent<TestActor>> for Sup {
         }
         if self.stop_on_start && k == 0 {
             mb.stop();
+        }
+        if let (Some(rs), true, Some(name)) = (&self.respawn, k != 0 && child < 5000, mb.name()) {
+            if name.starts_with('r') {
+                let (name, cap, new_id) = (name.to_string(), mb.capacity().get() + 10, child + 5000);
+                self.children.lock().unwrap().push(((Some(name.clone()), cap), new_id));
+                rs.attempts.fetch_add(1, Ordering::SeqCst);
+                let log = self.log.clone();
+                let r = Cluster::current()
+                    .spawn(move || TestActor { id: new_id, hooks: [true; 4], log, extra: None, gate: None, drop_gate: None }, ())
+                    .with_name(name.clone())
+                    .with_capacity(NonZeroUsize::new(cap).unwrap())
+                    .with_supervisor(myself)
+                    .await;
+                match r {
+                    Ok((m, _h)) => {
+                        rs.ids.lock().unwrap().push((new_id, name));
+                        m.send(Msg { id: 4_000_000 + new_id, kind: b's' }).ok();
+                    }
+                    Err(SpawnError::NameTaken(_)) => {
+                        rs.taken.fetch_add(1, Ordering::SeqCst);
+                    }
+                    Err(_) => {}
+                }
+            }
         }
         Ok(())
     }
@@ -626,7 +651,7 @@ impl Det {
                 let ch = children.clone();
                 let cluster = self.cluster.as_ref().unwrap();
                 let mut sp = cluster
-                    .spawn(move || Sup { id: a, log, children: ch, stop_on_start: false, keep }, ())
+                    .spawn(move || Sup { id: a, log, children: ch, stop_on_start: false, keep, respawn: None }, ())
                     .with_capacity(cap);
                 let name = if *name == "-" { None } else { Some(name.to_string()) };
                 if let Some(n) = &name {
@@ -1335,6 +1360,24 @@ fn exec_det(case: &Case) -> Exec {
 /// widens the race windows inside handlers (deterministic per (actor, message))
 struct ConcShared {
     salt: u64,
+    /// global logical clock for invocation / response stamps
+    clock: AtomicU64,
+}
+
+impl ConcShared {
+    fn tick(&self) -> u64 {
+        self.clock.fetch_add(1, Ordering::SeqCst)
+    }
+}
+
+/// a supervisor that restarts: on `terminated` / `failed` of a child named `r<id>` it spawns a replacement under
+/// the same name (the old registration must be gone by then), which stops itself at once
+#[derive(Default)]
+struct RespawnStats {
+    attempts: AtomicU64,
+    taken: AtomicU64,
+    /// (replacement id, name)
+    ids: Mutex<Vec<(u32, String)>>,
 }
 
 impl ConcShared {
@@ -1387,6 +1430,8 @@ impl ConcSpec {
 
 /// what one sender thread did: (message id, direct target or None for a group, accepted?)
 struct SenderLog {
+    /// casts through the message group: (id, stamp before, stamp after, accepted)
+    gsends: Vec<(u32, u64, u64, bool)>,
     sends: Vec<(u32, Option<u32>, bool)>,
     /// calls: id, direct target, future (None once resolved), result letter
     calls: Vec<(u32, Option<u32>, Option<CallFut>, char)>,
@@ -1410,9 +1455,15 @@ fn run_conc(spec: &ConcSpec) -> Vec<String> {
     let mut rng = Rng::new(spec.seed);
     let cluster = make_cluster(spec.workers);
     let log = Arc::new(Log::default());
-    let shared = Arc::new(ConcShared { salt: spec.seed });
+    let shared = Arc::new(ConcShared { salt: spec.seed, clock: AtomicU64::new(1) });
     let names = ["a", "b", "c"];
     let mut hist: Vec<String> = vec![];
+    // options of this scenario
+    let opt_respawn = rng.chance(1, 2);
+    let opt_early_sup_stop = rng.chance(1, 4);
+    let opt_sink = rng.chance(1, 2);
+    let opt_gchurn = rng.chance(2, 3);
+    let respawn_stats = Arc::new(RespawnStats::default());
 
     // supervisor
     let children = Arc::new(Mutex::new(vec![]));
@@ -1420,7 +1471,13 @@ fn run_conc(spec: &ConcSpec) -> Vec<String> {
         let (l, ch) = (log.clone(), children.clone());
         let r = block_on_timeout(
             cluster
-                .spawn(move || Sup { id: 1000, log: l, children: ch, stop_on_start: false, keep: false }, ())
+                .spawn(
+                    {
+                        let rs = if opt_respawn { Some(respawn_stats.clone()) } else { None };
+                        move || Sup { id: 1000, log: l, children: ch, stop_on_start: false, keep: false, respawn: rs }
+                    },
+                    (),
+                )
                 .with_capacity(NonZeroUsize::new(4096).unwrap())
                 .into_future(),
             LONG,
@@ -1456,7 +1513,15 @@ fn run_conc(spec: &ConcSpec) -> Vec<String> {
         } else {
             [true; 4]
         };
-        let supervised = sup.is_some() && rng.chance(1, 2) && used_keys.insert((name.clone(), cap));
+        let mut name = name;
+        let restartable = sup.is_some() && opt_respawn && rng.chance(1, 2);
+        if restartable {
+            name = Some(format!("r{id}"));
+        }
+        let supervised = restartable || (sup.is_some() && rng.chance(1, 2) && used_keys.insert((name.clone(), cap)));
+        if restartable {
+            used_keys.insert((name.clone(), cap));
+        }
         let (l, x) = (log.clone(), shared.clone());
         let mut sp = cluster
             .spawn(move || TestActor { id, hooks, log: l, extra: Some(x), gate: None, drop_gate: None }, ())
@@ -1489,9 +1554,32 @@ fn run_conc(spec: &ConcSpec) -> Vec<String> {
     let gc: ProcessGroup<Call<Ask, u32>> = ProcessGroup::new();
     let mut memberships_m = vec![];
     let mut memberships_c = vec![];
-    for (_, m) in &boxes {
+    // membership intervals per actor in `gm`: (stamp before join, stamp after leave or MAX)
+    let mut windows: Vec<(u32, u64, u64)> = vec![];
+    // a member that is always live and never full: while it is there no group cast may be handed back
+    let sink = if opt_sink {
+        let l = log.clone();
+        match block_on_timeout(
+            cluster
+                .spawn(move || TestActor { id: 3301, hooks: [true; 4], log: l, extra: None, gate: None, drop_gate: None }, ())
+                .with_capacity(NonZeroUsize::new(8192).unwrap())
+                .into_future(),
+            LONG,
+        ) {
+            Some(Ok((m, h))) => {
+                memberships_m.push(gm.join(m.broker()));
+                windows.push((3301, 0, u64::MAX / 2));
+                Some((m, h))
+            }
+            _ => None,
+        }
+    } else {
+        None
+    };
+    for (a, m) in &boxes {
         if rng.chance(1, 2) {
             memberships_m.push(gm.join(m.broker()));
+            windows.push((*a, 0, u64::MAX / 2));
         }
         if rng.chance(1, 2) {
             memberships_c.push(gc.join(m.broker()));
@@ -1505,8 +1593,9 @@ fn run_conc(spec: &ConcSpec) -> Vec<String> {
         let (gm, gc) = (gm.clone(), gc.clone());
         let mut r = rng.fork();
         let msgs = spec.msgs;
+        let sh = shared.clone();
         threads.push(thread::spawn(move || {
-            let mut sl = SenderLog { sends: vec![], calls: vec![] };
+            let mut sl = SenderLog { gsends: vec![], sends: vec![], calls: vec![] };
             if boxes.is_empty() {
                 return sl;
             }
@@ -1525,7 +1614,10 @@ fn run_conc(spec: &ConcSpec) -> Vec<String> {
                         sl.sends.push((id, Some(*a), ok));
                     }
                     65..=76 => {
+                        let t0 = sh.tick();
                         let ok = gm.send(Msg { id, kind: b'n' }).is_ok();
+                        let t1 = sh.tick();
+                        sl.gsends.push((id, t0, t1, ok));
                         sl.sends.push((id, None, ok));
                     }
                     77..=90 => {
@@ -1571,6 +1663,43 @@ fn run_conc(spec: &ConcSpec) -> Vec<String> {
             }
             sl
         }));
+    }
+
+    // membership churn: join / leave the cast group while casts are being routed
+    let gchurn = if opt_gchurn && !boxes.is_empty() {
+        let (boxes, gm, sh) = (boxes.clone(), gm.clone(), shared.clone());
+        let mut r = rng.fork();
+        let rounds = (spec.msgs / 2).clamp(4, 100);
+        Some(thread::spawn(move || {
+            let mut w: Vec<(u32, u64, u64)> = vec![];
+            for _ in 0..rounds {
+                let (a, mb) = &boxes[r.below(boxes.len() as u64) as usize];
+                let t0 = sh.tick();
+                let m = gm.join(mb.broker());
+                for _ in 0..r.below(4) {
+                    thread::yield_now();
+                }
+                if r.chance(1, 2) {
+                    m.leave();
+                } else {
+                    drop(m);
+                }
+                let t1 = sh.tick();
+                w.push((*a, t0, t1));
+            }
+            w
+        }))
+    } else {
+        None
+    };
+    // a supervisor that stops while its children are running / starting / failing
+    if opt_early_sup_stop {
+        if let Some((smb, _)) = &sup {
+            for _ in 0..rng.below(20) {
+                thread::yield_now();
+            }
+            smb.stop();
+        }
     }
 
     // name churn: one thread per name spawns short-lived actors under that name, one after the other
@@ -1724,6 +1853,41 @@ fn run_conc(spec: &ConcSpec) -> Vec<String> {
     }
 
     let mut slogs: Vec<SenderLog> = threads.into_iter().map(|t| t.join().expect("sender thread")).collect();
+    if let Some(t) = gchurn {
+        windows.extend(t.join().expect("group churn thread"));
+    }
+    // every handle of a running actor dropped while messages are queued and a call is in flight: the task keeps
+    // its own mailbox, so it must go on serving (and the call must be answered)
+    let orphan_call: Option<CallFut>;
+    let mut orphan_accepted: Vec<u32> = vec![];
+    {
+        let l = log.clone();
+        match block_on_timeout(
+            cluster
+                .spawn(move || TestActor { id: 3201, hooks: [true; 4], log: l, extra: None, gate: None, drop_gate: None }, ())
+                .with_capacity(NonZeroUsize::new(16).unwrap())
+                .into_future(),
+            LONG,
+        ) {
+            Some(Ok((m, h))) => {
+                for i in 0..rng.range(1, 8) as u32 {
+                    let id = 3_200_000 + i;
+                    if m.send(Msg { id, kind: b'n' }).is_ok() {
+                        orphan_accepted.push(id);
+                    }
+                }
+                let m2 = m.clone();
+                let mut fut: CallFut = Box::pin(async move { m2.call::<Ask, u32>(Ask { id: 3_200_100, kind: b'r' }).await });
+                if poll_once(fut.as_mut()).is_pending() {
+                    orphan_accepted.push(3_200_100);
+                }
+                orphan_call = Some(fut);
+                drop(m);
+                drop(h);
+            }
+            _ => orphan_call = None,
+        }
+    }
     let churned: Vec<(String, u32, Vec<u32>)> = churn_threads.into_iter().map(|t| t.join().expect("churn thread")).collect();
 
     // barrier: an actor that answers a call sent after all senders finished was alive all along
@@ -1775,17 +1939,46 @@ fn run_conc(spec: &ConcSpec) -> Vec<String> {
             }
         }
     }
-    // the supervisor has everything once it saw one exit event per supervised child that exited
+    // the sink and the orphan
+    let mut extra_life: Vec<(u32, char)> = vec![];
+    if let Some((m, h)) = sink {
+        m.stop();
+        extra_life.push((3301, if block_on_timeout(h, LONG).is_some() { 'X' } else { 'H' }));
+    }
+    if orphan_call.is_some() {
+        // nobody can stop the orphan; it must have served everything it accepted
+        let end = Instant::now() + LONG;
+        while handled_of(&log.of(3201)).len() < orphan_accepted.len() && Instant::now() < end {
+            thread::sleep(Duration::from_micros(200));
+        }
+        extra_life.push((3201, 'L'));
+    }
+    // the supervisor has everything once it saw one exit event per supervised child that exited, and the two
+    // events of every replacement it spawned
     let mut sup_events: Vec<(u32, u8)> = vec![];
     if let Some((smb, sh)) = sup {
-        let expected: usize = actors
-            .iter()
-            .filter(|a| a.supervised && a.fate == 'X')
-            .map(|a| 1 + log.of(a.id).contains(&Obs::Hook(1, true)) as usize)
-            .sum();
-        let end = Instant::now() + LONG;
-        while log.of(1000).len() < expected && Instant::now() < end {
-            thread::sleep(Duration::from_micros(200));
+        if !opt_early_sup_stop {
+            let base: usize = actors
+                .iter()
+                .filter(|a| a.supervised && a.fate == 'X')
+                .map(|a| 1 + log.of(a.id).contains(&Obs::Hook(1, true)) as usize)
+                .sum();
+            let restarts = if opt_respawn {
+                actors.iter().filter(|a| a.supervised && a.fate == 'X' && a.name.as_deref().is_some_and(|n| n.starts_with('r'))).count() as u64
+            } else {
+                0
+            };
+            let end = Instant::now() + LONG;
+            loop {
+                let ok_spawns = respawn_stats.ids.lock().unwrap().len();
+                let done = respawn_stats.attempts.load(Ordering::SeqCst) >= restarts
+                    && ok_spawns as u64 + respawn_stats.taken.load(Ordering::SeqCst) >= restarts
+                    && log.of(1000).len() >= base + 2 * ok_spawns;
+                if done || Instant::now() > end {
+                    break;
+                }
+                thread::sleep(Duration::from_micros(200));
+            }
         }
         smb.stop();
         block_on_timeout(sh, LONG);
@@ -1807,10 +2000,71 @@ fn run_conc(spec: &ConcSpec) -> Vec<String> {
     // ---- the history -------------------------------------------------------------------------
     let mut handled_by: HashMap<u32, u32> = HashMap::new();
     let mut all_handled: Vec<u32> = vec![];
-    for a in &actors {
-        for m in handled_of(&log.of(a.id)) {
-            handled_by.entry(m).or_insert(a.id);
+    let gen1: Vec<(u32, String)> = respawn_stats.ids.lock().unwrap().clone();
+    let mut every_id: Vec<u32> = actors.iter().map(|a| a.id).collect();
+    every_id.extend(extra_life.iter().map(|x| x.0));
+    every_id.extend(gen1.iter().map(|x| x.0));
+    for a in &every_id {
+        for m in handled_of(&log.of(*a)) {
+            handled_by.entry(m).or_insert(*a);
             all_handled.push(m);
+        }
+    }
+    // sink, orphan, replacements: lifecycle; the orphan served everything although nobody held it
+    for (id, fate) in &extra_life {
+        let shown: Vec<String> = log.of(*id).iter().map(Obs::show).collect();
+        hist.push(format!("hist life {} {}", if *fate == 'X' { "X" } else { "L" }, shown.join(" ")).trim_end().to_string());
+        if *fate == 'H' {
+            hist.push(format!("hist stuck {id}"));
+        }
+    }
+    if let Some(mut f) = orphan_call {
+        let handled = handled_of(&log.of(3201));
+        hist.push(format!("hist fifo C {} {}", join_ids(&handled), join_ids(&orphan_accepted)));
+        let r = match poll_once(f.as_mut()) {
+            Poll::Ready(r) => call_letter(&r),
+            Poll::Pending => 'p',
+        };
+        // the orphan lives: a pending call would be a hang (it accepted the call and is idle)
+        hist.push(format!("hist calls X {} 3200100:{}", join_ids(&handled), if r == 'p' && orphan_accepted.contains(&3_200_100) { 'h' } else { r }));
+    }
+    for (id, _) in &gen1 {
+        let l = log.of(*id);
+        let shown: Vec<String> = l.iter().map(Obs::show).collect();
+        hist.push(format!("hist life L {}", shown.join(" ")).trim_end().to_string());
+        if !opt_early_sup_stop {
+            let seen: Vec<u32> = sup_events.iter().filter(|e| e.0 == *id).map(|e| e.1 as u32).collect();
+            let po = l.contains(&Obs::Hook(1, true)) as u8;
+            let ex = if l.iter().any(|o| matches!(o, Obs::Hook(3, _))) { "S" } else { "N" };
+            hist.push(format!("hist sup {po} {ex} {}", join_ids(&seen)));
+        }
+    }
+    if opt_respawn {
+        hist.push(format!(
+            "hist respawn {} {}",
+            respawn_stats.attempts.load(Ordering::SeqCst),
+            respawn_stats.taken.load(Ordering::SeqCst)
+        ));
+    }
+    // casts under membership change: whoever handled a cast was a member at some moment between the cast's
+    // invocation and its response; with the sink present no cast is handed back
+    {
+        let mut gs: Vec<(u32, u64, u64, bool)> = vec![];
+        for sl in &slogs {
+            gs.extend(sl.gsends.iter().copied());
+        }
+        let mut who: BTreeSet<u32> = windows.iter().map(|w| w.0).collect();
+        who.extend(gs.iter().filter_map(|g| handled_by.get(&g.0).copied()));
+        for a in who {
+            let ivs: Vec<String> = windows.iter().filter(|w| w.0 == a).map(|w| format!("{}:{}", w.1, w.2)).collect();
+            let ms: Vec<String> =
+                gs.iter().filter(|g| handled_by.get(&g.0) == Some(&a)).map(|g| format!("{}:{}", g.1, g.2)).collect();
+            if !ms.is_empty() {
+                hist.push(format!("hist gwindow {} {}", if ivs.is_empty() { "-".to_string() } else { ivs.join(",") }, ms.join(",")));
+            }
+        }
+        if opt_sink && windows.iter().any(|w| w.0 == 3301) {
+            hist.push(format!("hist gsink {} {}", gs.len(), gs.iter().filter(|g| g.3).count()));
         }
     }
     for a in &actors {
@@ -1865,7 +2119,7 @@ fn run_conc(spec: &ConcSpec) -> Vec<String> {
                 (Some(ActorExit::Failed(_)), _) => "E",
                 _ => "N",
             };
-            hist.push(format!("hist sup {po} {ex} {}", join_ids(&seen)));
+            hist.push(format!("hist {} {po} {ex} {}", if opt_early_sup_stop { "supp" } else { "sup" }, join_ids(&seen)));
         }
     }
     // group calls nobody handled: must have been rejected or be stranded
@@ -1892,6 +2146,9 @@ fn run_conc(spec: &ConcSpec) -> Vec<String> {
         for i in ids {
             named.push((n.clone(), *i));
         }
+    }
+    for (id, n) in &gen1 {
+        named.push((n.clone(), *id));
     }
     for i in &z_ids {
         named.push(((if *i >= 3100 { "w" } else { "z" }).to_string(), *i));
@@ -2015,6 +2272,7 @@ fn judge(w: &[&str]) -> (String, Option<(&'static str, String)>) {
             };
             let mut ok = true;
             let mut stranded = vec![];
+            let mut hangs: Vec<u64> = vec![];
             for c in cs {
                 let Some((i, r)) = c.split_once(':') else { return bad() };
                 if i.is_empty() || !i.bytes().all(|b| b.is_ascii_digit()) {
@@ -2025,6 +2283,8 @@ fn judge(w: &[&str]) -> (String, Option<(&'static str, String)>) {
                 match r {
                     "r" | "n" => ok &= was,
                     "f" | "c" => ok &= !was,
+                    // accepted by an actor that is alive and idle, never answered
+                    "h" => hangs.push(i),
                     "p" => {
                         ok &= !exited || !was;
                         if exited && !was {
@@ -2033,6 +2293,12 @@ fn judge(w: &[&str]) -> (String, Option<(&'static str, String)>) {
                     }
                     _ => return bad(),
                 }
+            }
+            if !hangs.is_empty() {
+                return (
+                    "reject call-hangs".into(),
+                    Some(("C19:call-hangs", format!("calls {hangs:?} accepted by a live idle actor were never answered: {}", w.join(" ")))),
+                );
             }
             if ok && !stranded.is_empty() {
                 return (
@@ -2093,6 +2359,53 @@ fn judge(w: &[&str]) -> (String, Option<(&'static str, String)>) {
         ),
         ["hang"] => ("reject hang".into(), Some(("C19:hang", "the process running this scenario made no progress".into()))),
         ["panic", ..] => ("reject panic".into(), Some(("C19:harness-panic", w.join(" ")))),
+        ["supp", po, ex, seen] => {
+            // the supervisor stopped at some point: it saw a prefix of what the child told it
+            let Some(s) = nat_list(seen) else { return bad() };
+            let mut expect: Vec<u64> = vec![];
+            match *po {
+                "1" => expect.push(0),
+                "0" => {}
+                _ => return bad(),
+            }
+            match *ex {
+                "S" => expect.push(1),
+                "E" => expect.push(2),
+                "N" => {}
+                _ => return bad(),
+            }
+            verdict(s.len() <= expect.len() && expect[..s.len()] == s[..], "supervision", "C19:conc-supervision", w.join(" "))
+        }
+        ["respawn", n, t] => {
+            let num = |x: &str| if !x.is_empty() && x.bytes().all(|b| b.is_ascii_digit()) { x.parse::<u64>().ok() } else { None };
+            let (Some(n), Some(t)) = (num(n), num(t)) else { return bad() };
+            verdict(t == 0 && t <= n, "respawn-name-taken", "C19:name-not-released", w.join(" "))
+        }
+        ["gwindow", ivs, ms] => {
+            let parse = |x: &str| -> Option<Vec<(u64, u64)>> {
+                if x == "-" {
+                    return Some(vec![]);
+                }
+                x.split(',')
+                    .map(|p| {
+                        let (a, b) = p.split_once(':')?;
+                        let ok = |s: &str| !s.is_empty() && s.bytes().all(|b| b.is_ascii_digit());
+                        if !ok(a) || !ok(b) {
+                            return None;
+                        }
+                        Some((a.parse().ok()?, b.parse().ok()?))
+                    })
+                    .collect()
+            };
+            let (Some(ivs), Some(ms)) = (parse(ivs), parse(ms)) else { return bad() };
+            let ok = ms.iter().all(|(si, sr)| ivs.iter().any(|(ji, lr)| ji < sr && si < lr));
+            verdict(ok, "routed-to-non-member", "C19:group-routed-to-departed-member", w.join(" "))
+        }
+        ["gsink", n, k] => {
+            let num = |x: &str| if !x.is_empty() && x.bytes().all(|b| b.is_ascii_digit()) { x.parse::<u64>().ok() } else { None };
+            let (Some(n), Some(k)) = (num(n), num(k)) else { return bad() };
+            verdict(n == k, "cast-lost", "C19:group-cast-lost-despite-available-member", w.join(" "))
+        }
         ["refail", flags @ ..] if flags.len() == 3 && flags.iter().all(|f| *f == "0" || *f == "1") => {
             // start failure observed (and the failed actor still being dropped) / respawn under the same name
             // accepted at once / the respawned actor ran and exited
